@@ -37,6 +37,10 @@ def process_item(item, *sketches, event_file=None, die=None, table=None):
         _log(event_file, f"{os.getpid()} {i} exit")
         if die is not None:
             raise die(f"worker dies on item {i}")
+        if item.get("how") == "sigkill":
+            import signal
+
+            os.kill(os.getpid(), signal.SIGKILL)  # the way the OOM killer ends a worker
         os._exit(3)
     for k, v in item["keys"]:
         kb = bytes.fromhex(k)
